@@ -343,6 +343,7 @@ def check_kind_path(R, base, sig, p, node_prec, is_canary=False):
                 replay=dict(kind="kind", kindname=v["kind"], facts=c.signature()))
         # coverage
         exp = _expected_keys(v["req"])
+        want_set = {(k, d) for k, d, _, _ in exp}
         ys = v["ys"]
         got_keys = []
         for y in ys:
@@ -353,7 +354,16 @@ def check_kind_path(R, base, sig, p, node_prec, is_canary=False):
                     for r in range(k):
                         got_keys.append((tagstr(ops.subst_j(y["child"], segs[0].jvar, z3.IntVal(r)).tag), 0))
                     continue
-            got_keys.append((_yield_key(y), len(y["generic"])))
+            key = (_yield_key(y), len(y["generic"]))
+            if key not in want_set and segs and isinstance(y["child"], Opaque):
+                # the rounds may visit the children of a run in the opposite order (round j asks
+                # for element n-1-j): the same SET of children; coverage does not depend on order
+                sg = segs[-1]
+                mirrored = dict(y, child=ops.subst_j(y["child"], sg.jvar, z3.simplify(zint(sg.length) - 1 - sg.jvar)))
+                k2 = (_yield_key(mirrored), len(y["generic"]))
+                if k2 in want_set:
+                    key = k2
+            got_keys.append(key)
         got_keys.sort()
         want_keys = sorted((k, d) for k, d, _, _ in exp)
         R.check(f"{base}/coverage/{sig}", got_keys == want_keys,
